@@ -42,17 +42,34 @@ fn stdin_json() -> Value {
     serde_json::from_str(&s).expect("stdin json")
 }
 
-/// run a sub-command of this executable in a fresh process
-pub fn child(sub: &str, input: &Value) -> Value {
+/// how long a child may run before it is declared hung (a deadlock is an outcome, not a tool error)
+const CHILD_DEADLINE_MS: u64 = 30_000;
+
+/// run a sub-command of this executable in a fresh process; None = it did not finish (killed)
+pub fn child_opt(sub: &str, input: &Value) -> Option<Value> {
     let exe = std::env::current_exe().expect("current_exe");
     let mut ch = Command::new(exe).args(["c20", sub]).stdin(Stdio::piped()).stdout(Stdio::piped()).stderr(Stdio::null()).spawn().expect("spawn");
     let text = input.to_string();
     let mut si = ch.stdin.take().unwrap();
     let w = std::thread::spawn(move || { let _ = si.write_all(text.as_bytes()); });
-    let out = ch.wait_with_output().expect("child output");
+    let mut so = ch.stdout.take().unwrap();
+    let rd = std::thread::spawn(move || { let mut b = Vec::new(); let _ = so.read_to_end(&mut b); b });
+    let t0 = std::time::Instant::now();
+    let mut spins = 0u32;
+    let status = loop {
+        if let Some(st) = ch.try_wait().expect("try_wait") { break Some(st); }
+        if t0.elapsed().as_millis() as u64 > CHILD_DEADLINE_MS { let _ = ch.kill(); let _ = ch.wait(); break None; }
+        spins += 1;
+        std::thread::sleep(std::time::Duration::from_micros(if spins < 200 { 200 } else { 5_000 }));
+    };
     let _ = w.join();
-    if !out.status.success() { panic!("child c20 {} failed: {:?}", sub, out.status); }
-    serde_json::from_slice(&out.stdout).unwrap_or_else(|e| panic!("child c20 {} wrote no json ({})", sub, e))
+    let out = rd.join().unwrap_or_default();
+    let status = status?;
+    if !status.success() { panic!("child c20 {} failed: {:?}", sub, status); }
+    Some(serde_json::from_slice(&out).unwrap_or_else(|e| panic!("child c20 {} wrote no json ({})", sub, e)))
+}
+pub fn child(sub: &str, input: &Value) -> Value {
+    child_opt(sub, input).unwrap_or_else(|| panic!("child c20 {} hung (reference runs must terminate)", sub))
 }
 
 /// outcome in the form the trace spec compares: kind + canonical JSON text (type-safe for TLC)
@@ -130,17 +147,28 @@ fn child_ref() {
     println!("{}", json!({"outs": outs, "loadable": loadable}));
 }
 
-/// F for a list of distinct calls: sequential runs in fresh processes (a new one after every poisoning)
+/// F for a list of distinct calls: sequential runs in fresh processes (a new one after every poisoning).
+/// A call that does not return even when run alone has the outcome "timeout" (which no specification
+/// action matches).
 pub fn reference(calls: &[Value], zones: &[String]) -> (Vec<Value>, Value) {
     let mut outs: Vec<Value> = Vec::new();
-    let mut loadable = json!({});
-    let mut first = true;
-    while outs.len() < calls.len() || first {
-        let r = child("ref", &json!({"calls": &calls[outs.len()..], "zones": if first { json!(zones) } else { json!([]) }}));
-        if first { loadable = r["loadable"].clone(); first = false; }
-        let got = r["outs"].as_array().unwrap();
-        if got.is_empty() && outs.len() < calls.len() { panic!("reference run made no progress"); }
-        outs.extend(got.iter().cloned());
+    let mut loadable = child("ref", &json!({"calls": [], "zones": zones}))["loadable"].clone();
+    if loadable.is_null() { loadable = json!({}); }
+    while outs.len() < calls.len() {
+        match child_opt("ref", &json!({"calls": &calls[outs.len()..], "zones": []})) {
+            Some(r) => {
+                let got = r["outs"].as_array().unwrap();
+                if got.is_empty() { panic!("reference run made no progress"); }
+                outs.extend(got.iter().cloned());
+            }
+            None => {
+                // something in the batch hangs: find out which, one call per process
+                let rest: Vec<Value> = calls[outs.len()..].to_vec();
+                for c in rest {
+                    outs.push(match child_opt("ref", &json!({"calls": [c], "zones": []})) { Some(r) => r["outs"][0].clone(), None => json!({"kind": "timeout"}) });
+                }
+            }
+        }
     }
     (outs, loadable)
 }
@@ -232,7 +260,19 @@ pub fn run_session(sid: usize, plan: &Value) -> Value {
     let (outs, loadable) = reference(&calls, &zones);
     let mut f: HashMap<String, Value> = keys.into_iter().zip(outs).collect();
     for (k, c) in &distinct { if c["op"] == "Lock.panic" { f.insert(k.clone(), json!({"kind": "panic"})); } }
-    let mut rec = child("run", plan);
+    let mut rec = match child_opt("run", plan) {
+        Some(r) => r,
+        None => {
+            // the session did not finish (deadlock): every planned call is observed as "timeout"
+            let n = plan["n"].as_u64().unwrap() as usize;
+            let mut thr: Vec<Vec<Value>> = vec![Vec::new(); n];
+            for (pi, ph) in plan["phases"].as_array().unwrap().iter().enumerate() { for t in 0..n { for c in ph[t].as_array().unwrap() {
+                let k = thr[t].len() + 1;
+                thr[t].push(json!({"ph": pi + 1, "k": k, "op": c["op"], "args": c["args"], "out": {"kind": "timeout"}, "pz": false, "evs": []}));
+            } } }
+            json!({"thr": thr})
+        }
+    };
     for th in rec["thr"].as_array_mut().unwrap() { for c in th.as_array_mut().unwrap() {
         let key = json!({"op": c["op"], "args": c["args"]}).to_string();
         c["f"] = canon(&f[&key]);
@@ -290,8 +330,12 @@ pub fn run_history(order: &[Value]) -> (Vec<Value>, Vec<Value>) {
         let c = concrete(s["kind"].as_str().unwrap(), s["zone"].as_str().unwrap(), i);
         json!({"t": s["t"], "op": c["op"], "args": c["args"]})
     }).collect();
-    let obs = child("hist", &json!({"threads": nt, "steps": steps}));
-    (steps, obs.as_array().unwrap().clone())
+    let obs = match child_opt("hist", &json!({"threads": nt, "steps": steps})) {
+        Some(o) => o.as_array().unwrap().clone(),
+        // the process did not finish (deadlock): every step is observed as "timeout"
+        None => steps.iter().map(|_| json!({"out": {"kind": "timeout"}, "evs": [], "poisoned": false})).collect(),
+    };
+    (steps, obs)
 }
 
 /// tvh c20 replay <cases.ndjson> <report.ndjson>
@@ -303,7 +347,8 @@ fn replay_main(a: &[String]) {
     let alone = |c: &Value| -> Value {
         let key = c.to_string();
         if let Some(v) = fmap.lock().unwrap().get(&key) { return v.clone(); }
-        let v = if c["op"] == "Lock.panic" { json!({"kind": "panic"}) } else { child("ref", &json!({"calls": [c], "zones": []}))["outs"][0].clone() };
+        let v = if c["op"] == "Lock.panic" { json!({"kind": "panic"}) }
+                else { match child_opt("ref", &json!({"calls": [c], "zones": []})) { Some(r) => r["outs"][0].clone(), None => json!({"kind": "timeout"}) } };
         fmap.lock().unwrap().insert(key, v.clone());
         v
     };
@@ -328,7 +373,7 @@ fn replay_main(a: &[String]) {
                     // binding sanity: the concrete call, alone, must be of the abstract kind
                     let fk = fc["kind"].as_str().unwrap_or("");
                     let kind = st["kind"].as_str().unwrap();
-                    let bound = match kind { "ok" => fk == "ok", "panic" => fk == "panic", _ => fk != "ok" && fk != "panic" };
+                    let bound = fk == "timeout" || match kind { "ok" => fk == "ok", "panic" => fk == "panic", _ => fk != "ok" && fk != "panic" };
                     if !bound { binding_errors.lock().unwrap().push(format!("{} alone gives {} for abstract kind {}", c, fk, kind)); }
                     // expected concrete outcome of this step according to the model
                     let mres = st["res"]["kind"].as_str().unwrap();
@@ -344,7 +389,8 @@ fn replay_main(a: &[String]) {
                     let lk_ok = olk == exp_lk;
                     // poison flag: only a panic under the lock may set it (the property does not say whether a recovered lock stays flagged)
                     let pz_ok = !(o["poisoned"] == true) || st["pz"] == true;
-                    let out_ok = o["out"] == exp_out;
+                    let hung = o["out"]["kind"] == "timeout";   // never acceptable, whatever the call does alone
+                    let out_ok = o["out"] == exp_out && !hung;
                     let expected = json!({"kind": exp_out["kind"], "val": exp_out.get("val"), "lk": exp_lk, "pz": st["pz"]});
                     // (the flag is judged one way only, so an acceptable flag is reported as the model's)
                     let observed = json!({"kind": o["out"]["kind"], "val": o["out"].get("val"), "lk": olk, "pz": if pz_ok { st["pz"].clone() } else { o["poisoned"].clone() }});
@@ -352,7 +398,7 @@ fn replay_main(a: &[String]) {
                         samples.lock().unwrap().push(json!({"op": "ProviderLock.history", "order": order, "concrete_last": c, "expected_last": expected, "observed_last": observed}));
                     }
                     if !(out_ok && lk_ok && pz_ok) {
-                        let what = if !out_ok { "result" } else if !lk_ok { "cache" } else { "poison-flag" };
+                        let what = if hung { "deadlock" } else if !out_ok { "result" } else if !lk_ok { "cache" } else { "poison-flag" };
                         report.lock().unwrap().push((hi, i, json!({"i": hi + 1, "op": "ProviderLock.call", "cls": st["cls"], "differs": what,
                             "args": {"order": order, "step": i + 1}, "concrete": c, "expected": expected, "observed": observed})));
                     }
